@@ -116,7 +116,7 @@ theorem out_old_ok {lt : LexTree} {g : Fsg} {s s' : SState} (inv : HmmsInv lt g 
   have hpN := (hact p hpa).1
   have hout := ((hstep p hpN).2 hpa').2.2.1
   simp only [hpa, if_true] at hout
-  rcases hout with ⟨heq, hlv⟩ | ⟨i, hi, heq, hlv⟩
+  rcases hout with ⟨heq, hlv⟩ | ⟨i, hi, _, heq, hlv⟩
   · rw [heq]; exact (hpn p hpN).1.2 (hlv hl)
   · rw [heq]; exact (hpn p hpN).1.1 i (List.mem_range.1 hi) (hlv hl)
 
